@@ -45,7 +45,7 @@ Proof.
     + apply range_clear. exact Hr.
     + exact W2.
     + exact W3.
-  - intros [= <-]. apply (fold_left_inv range_inv).
+  - destruct (forallb pchange_valid _); [|discriminate]. intros [= <-]. apply (fold_left_inv range_inv).
     + intros x c Hx. pose proof (apply_pchange_keeps x c). eapply range_keeps; eauto.
     + apply range_clear. exact Hr.
   - destruct (end_block _) as [se| |] eqn:H; try discriminate. intros [= <-].
@@ -102,7 +102,7 @@ Proof.
   intros Hh (W1 & _ & _). unfold step. destruct o.
   - simpl in W1. destruct (begin_block_never_panics s t Hh W1) as (s' & -> & _). discriminate.
   - destruct (run_tx _ m); discriminate.
-  - discriminate.
+  - destruct (forallb pchange_valid _); discriminate.
   - destruct (end_block_never_panics s Hh) as (s' & -> & _). discriminate.
 Qed.
 
@@ -143,7 +143,8 @@ Proof.
   unfold wf_op_c03, wf_op_c03_b, wf_op_life, wf_op. destruct o; intros H; rewrite ?msg_sender_from in H.
   - apply Z.ltb_lt in H. auto.
   - apply andb_true_iff in H as [H1 H2]. apply bool_decide_eq_true in H1. split; [exact I|]. split; [exact H1|]. apply bal_small_sound. exact H2.
-  - apply andb_true_iff in H as [H1 H2]. apply bool_decide_eq_true in H2. split; [|auto]. split; [apply par_ok_b_sound; exact H1|].
+  - split; [|auto]. intros Hgate. rewrite Hgate in H. simpl in H.
+    apply andb_true_iff in H as [H1 H2]. apply bool_decide_eq_true in H2. apply Z.leb_le in H1. split; [exact H1|].
     intros sid x Hx. exact (H2 _ _ Hx).
   - auto.
 Qed.
